@@ -53,13 +53,15 @@ theorem strategy_none_identity (p : CParams) (hnone : correction_presets.lookup 
           have hcorr : correctedIntrons p err known (junctionsFromBlocks (a :: b :: rest'))
               = junctionsFromBlocks (a :: b :: rest') := by simp [correctedIntrons, hfz]
           have hm := buildEventMap_wf (hw evs rfl)
-          simp only [processEvents, hcorr, hmicro]
+          simp only [processEvents, hcorr, hmicro, buildMicroMap_off]
           rw [eventLoop_off hp _ _ _ _ _ hm _ 0 _ [] (by omega) (by omega) (by simp [eventFuel]; omega)]
           simp only [Int.toNat_zero, List.drop_zero, List.nil_append]
           rw [chain_of_junctions a b rest' hg t ht]
           have hv : validChain (a :: b :: rest') = true :=
             (validChain_iff _).mpr ⟨Spaced_WFl hg, Spaced_SD hg⟩
-          simp [hv]
+          have hvi : validIntronChain (junctionsFromBlocks (a :: b :: rest')) = true :=
+            (validIntronChain_iff _).mpr (junctions_spaced _ hg)
+          simp [hv, hvi]
 
 -- non-vacuity: a three-exon read with a well-formed event list; the theorem applies and the model computes
 example : Spaced [(10, 20), (31, 40), (61, 70)] ∧
@@ -86,7 +88,7 @@ theorem correct_assigned_read_cases (p : CParams) (err : Nat → Bool → Int ×
     (h : correctAssignedRead p err known noninformative events isoRegion isoIntrons exons = .ok out) :
     out = exons ∨
     ∃ f l evs reg ni, exons.head? = some f ∧ exons.getLast? = some l ∧ events = some evs ∧
-      processEvents p err known (buildEventMap p.fl.microintron_retention evs) (f.1, l.2)
+      processEvents p err known (buildEventMap evs) (buildMicroMap p.fl.microintron_retention evs) (f.1, l.2)
         (junctionsFromBlocks exons) isoRegion isoIntrons = .ok (reg, ni) ∧
       out = buildExons reg ni ∧ validChain out = true := by
   unfold correctAssignedRead at h
@@ -103,7 +105,7 @@ theorem correct_assigned_read_cases (p : CParams) (err : Nat → Bool → Int ×
         | none => simp [hf, hl] at h
         | some l =>
           simp only [hf, hl] at h
-          cases hp : processEvents p err known (buildEventMap p.fl.microintron_retention evs) (f.1, l.2)
+          cases hp : processEvents p err known (buildEventMap evs) (buildMicroMap p.fl.microintron_retention evs) (f.1, l.2)
               (junctionsFromBlocks exons) isoRegion isoIntrons with
           | error x => simp [hp] at h
           | ok q =>
@@ -112,7 +114,8 @@ theorem correct_assigned_read_cases (p : CParams) (err : Nat → Bool → Int ×
             split at h
             · rename_i hv
               simp at h
-              exact Or.inr ⟨f, l, evs, reg, ni, rfl, rfl, rfl, hp, h.symm, by rw [← h]; exact hv⟩
+              have hv2 := (Bool.and_eq_true _ _).mp hv
+              exact Or.inr ⟨f, l, evs, reg, ni, rfl, rfl, rfl, hp, h.symm, by rw [← h]; exact hv2.2⟩
             · simp at h; exact Or.inl h.symm
 
 /-- **corrected_always_valid** (after the `fix:` commit that added the validity gate): for EVERY event list,
@@ -176,13 +179,14 @@ def EndAllowed (p : CParams) (emap : List (Int × MEvent)) (readIntrons : List I
     each end of the returned region is the read's own end unless one of the four terminal branches, guarded by its
     strategy flag, was taken for an event of the map -/
 theorem ends_preserved_unless_terminal (p : CParams) (err : Nat → Bool → Int × Int) (known : List Iv)
-    (emap : List (Int × MEvent)) (readRegion : Iv) (readIntrons : List Iv) (isoRegion : Iv) (isoIntrons : List Iv)
+    (emap : List (Int × MEvent)) (mm : List (Int × Int)) (readRegion : Iv) (readIntrons : List Iv) (isoRegion : Iv)
+    (isoIntrons : List Iv)
     (reg : Iv) (ni : List Iv)
-    (h : processEvents p err known emap readRegion readIntrons isoRegion isoIntrons = .ok (reg, ni)) :
+    (h : processEvents p err known emap mm readRegion readIntrons isoRegion isoIntrons = .ok (reg, ni)) :
     StartAllowed p emap readIntrons isoRegion readRegion reg.1 ∧
     EndAllowed p emap readIntrons isoRegion readRegion reg.2 := by
   unfold processEvents at h
-  refine eventLoop_invariant p emap readRegion readIntrons _ isoRegion isoIntrons
+  refine eventLoop_invariant p emap mm readRegion readIntrons _ isoRegion isoIntrons
     (fun r _ => StartAllowed p emap readIntrons isoRegion readRegion r.1 ∧
                 EndAllowed p emap readIntrons isoRegion readRegion r.2)
     (fun _ _ _ _ _ hi => hi) (fun _ _ _ _ _ hi => hi) ?_ _ 0 readRegion [] reg ni ⟨Or.inl rfl, Or.inl rfl⟩ h
@@ -198,11 +202,12 @@ theorem ends_preserved_unless_terminal (p : CParams) (err : Nat → Bool → Int
 /-- corollary: a strategy without the two terminal flags never moves an end -/
 theorem ends_preserved_without_terminal_flags (p : CParams) (hf : p.fl.fake_terminal_exons = false)
     (ht : p.fl.terminal_exons = false) (err : Nat → Bool → Int × Int) (known : List Iv)
-    (emap : List (Int × MEvent)) (readRegion : Iv) (readIntrons : List Iv) (isoRegion : Iv) (isoIntrons : List Iv)
+    (emap : List (Int × MEvent)) (mm : List (Int × Int)) (readRegion : Iv) (readIntrons : List Iv) (isoRegion : Iv)
+    (isoIntrons : List Iv)
     (reg : Iv) (ni : List Iv)
-    (h : processEvents p err known emap readRegion readIntrons isoRegion isoIntrons = .ok (reg, ni)) :
+    (h : processEvents p err known emap mm readRegion readIntrons isoRegion isoIntrons = .ok (reg, ni)) :
     reg = readRegion := by
-  obtain ⟨h1, h2⟩ := ends_preserved_unless_terminal p err known emap readRegion readIntrons isoRegion isoIntrons reg ni h
+  obtain ⟨h1, h2⟩ := ends_preserved_unless_terminal p err known emap mm readRegion readIntrons isoRegion isoIntrons reg ni h
   have e1 : reg.1 = readRegion.1 := by
     rcases h1 with h1 | ⟨h1, _⟩ | ⟨h1, _⟩
     · exact h1
@@ -227,25 +232,27 @@ theorem corrected_read_ends (p : CParams) (err : Nat → Bool → Int × Int) (k
     (hf : exons.head? = some f) (hl : exons.getLast? = some l)
     (h : correctAssignedRead p err known noninformative (some evs) isoRegion isoIntrons exons = .ok out) :
     ∃ f' l', out.head? = some f' ∧ out.getLast? = some l' ∧
-      StartAllowed p (buildEventMap p.fl.microintron_retention evs) (junctionsFromBlocks exons) isoRegion (f.1, l.2) f'.1 ∧
-      EndAllowed p (buildEventMap p.fl.microintron_retention evs) (junctionsFromBlocks exons) isoRegion (f.1, l.2) l'.2 := by
+      StartAllowed p (buildEventMap evs) (junctionsFromBlocks exons) isoRegion (f.1, l.2) f'.1 ∧
+      EndAllowed p (buildEventMap evs) (junctionsFromBlocks exons) isoRegion (f.1, l.2) l'.2 := by
   rcases correct_assigned_read_cases p err known noninformative (some evs) isoRegion isoIntrons exons out h with
     h1 | ⟨f2, l2, evs2, reg, ni, hf2, hl2, he, hp, ho, _⟩
   · subst h1
     exact ⟨f, l, hf, hl, Or.inl rfl, Or.inl rfl⟩
   · rw [hf] at hf2; rw [hl] at hl2
     cases hf2; cases hl2; cases he
-    obtain ⟨a, b⟩ := ends_preserved_unless_terminal p err known _ _ _ isoRegion isoIntrons reg ni hp
+    obtain ⟨a, b⟩ := ends_preserved_unless_terminal p err known _ _ _ _ isoRegion isoIntrons reg ni hp
     obtain ⟨f', l', h1, h2, h3, h4⟩ := build_exons_ends reg ni
     subst ho
     exact ⟨f', l', h1, h2, by rw [h3]; exact a, by rw [h4]; exact b⟩
 
 /-! ### provenance of the splice sites -/
 
-/-- an intron of the assigned isoform whose (Python) index is named by an event of the map -/
-def NamedIsoformIntron (emap : List (Int × MEvent)) (isoIntrons : List Iv) (n : Iv) : Prop :=
-  n ∈ isoIntrons ∧ ∃ k e j, emap.lookup k = some e ∧ ((e.iso.1 ≤ j ∧ j ≤ e.iso.2) ∨ j = e.iso.1) ∧
-    pyGet? isoIntrons j = some n
+/-- an intron of the assigned isoform whose (Python) index is named by an event of the map, or by a retained
+    micro intron (`mm`: the `(read exon, isoform intron index)` bindings of the `fake_micro_intron_retention` events) -/
+def NamedIsoformIntron (emap : List (Int × MEvent)) (mm : List (Int × Int)) (isoIntrons : List Iv) (n : Iv) : Prop :=
+  n ∈ isoIntrons ∧
+    ((∃ k e j, emap.lookup k = some e ∧ ((e.iso.1 ≤ j ∧ j ≤ e.iso.2) ∨ j = e.iso.1) ∧ pyGet? isoIntrons j = some n) ∨
+     (∃ q ∈ mm, pyGet? isoIntrons q.2 = some n))
 
 /-- "best-matching": the candidate chosen for a read feature has the smallest total site distance among the known
     features that the sweep collected for it (ties: the first in annotation order) -/
@@ -300,28 +307,30 @@ theorem corrected_introns_sound (p : CParams) (err : Nat → Bool → Int × Int
     intron within `delta` (only the read's own when `fuzzy_junctions` is off), or (b) an intron of the assigned
     isoform whose index is named by an event of the map -/
 theorem site_provenance (p : CParams) (err : Nat → Bool → Int × Int) (known : List Iv)
-    (emap : List (Int × MEvent)) (readRegion : Iv) (readIntrons : List Iv) (isoRegion : Iv) (isoIntrons : List Iv)
+    (emap : List (Int × MEvent)) (mm : List (Int × Int)) (readRegion : Iv) (readIntrons : List Iv) (isoRegion : Iv)
+    (isoIntrons : List Iv)
     (reg : Iv) (ni : List Iv)
-    (h : processEvents p err known emap readRegion readIntrons isoRegion isoIntrons = .ok (reg, ni)) :
+    (h : processEvents p err known emap mm readRegion readIntrons isoRegion isoIntrons = .ok (reg, ni)) :
     ∀ n ∈ ni, (FuzzyOf known p.delta readIntrons n ∧ (p.fl.fuzzy_junctions = false → n ∈ readIntrons)) ∨
-              NamedIsoformIntron emap isoIntrons n := by
+              NamedIsoformIntron emap mm isoIntrons n := by
   unfold processEvents at h
   have hcorr := corrected_introns_sound p err known readIntrons
   have hown : ∀ n ∈ readIntrons, FuzzyOf known p.delta readIntrons n ∧ (p.fl.fuzzy_junctions = false → n ∈ readIntrons) :=
     fun n hn => ⟨⟨n, hn, n, Or.inl rfl, Or.inl rfl, Or.inl rfl⟩, fun _ => hn⟩
-  refine eventLoop_invariant p emap readRegion readIntrons _ isoRegion isoIntrons
+  refine eventLoop_invariant p emap mm readRegion readIntrons _ isoRegion isoIntrons
     (fun _ acc => ∀ n ∈ acc, (FuzzyOf known p.delta readIntrons n ∧ (p.fl.fuzzy_junctions = false → n ∈ readIntrons)) ∨
-                             NamedIsoformIntron emap isoIntrons n)
+                             NamedIsoformIntron emap mm isoIntrons n)
     ?_ ?_ ?_ _ 0 readRegion [] reg ni (by intro n hn; cases hn) h
   · intro i r acc acc' hm hi
-    rcases microStep_ok hm with h1 | ⟨e, x, h1, h2, h3⟩
-    · rw [h1]; exact hi
-    · rw [h3]
-      intro n hn
-      rcases List.mem_append.mp hn with hn | hn
-      · exact hi n hn
-      · simp at hn; subst hn
-        exact Or.inr ⟨pyGet_mem h2, -i - 1, e, e.iso.1, h1, Or.inr rfl, h2⟩
+    obtain ⟨xs, hg, h3⟩ := microStep_ok hm
+    rw [h3]
+    intro n hn
+    rcases List.mem_append.mp hn with hn | hn
+    · exact hi n hn
+    · obtain ⟨j, hj, h2⟩ := getAll_mem hg n hn
+      simp only [microAt, List.mem_map, List.mem_filter] at hj
+      obtain ⟨q, ⟨hq, _⟩, hqj⟩ := hj
+      exact Or.inr ⟨pyGet_mem h2, Or.inr ⟨q, hq, by rw [hqj]; exact h2⟩⟩
   · intro i c r acc hg hi n hn
     rcases List.mem_append.mp hn with hn | hn
     · exact hi n hn
@@ -337,7 +346,7 @@ theorem site_provenance (p : CParams) (err : Nat → Bool → Int × Int) (known
       · rcases hj with hj | hj
         · exact Or.inl (hown n (pyGet_mem hj))
         · exact Or.inl (hcorr n (pyGet_mem hj))
-      · exact Or.inr ⟨pyGet_mem hj2, i, e, j, hl, hj1, hj2⟩
+      · exact Or.inr ⟨pyGet_mem hj2, Or.inl ⟨i, e, j, hl, hj1, hj2⟩⟩
 
 /-- the block boundaries of the corrected alignment are the ends of the region and the sites of the new introns:
     every block starts at the region start or right after a new intron and ends at the region end or right
@@ -360,10 +369,10 @@ theorem output_sites_from_introns (reg : Iv) (ni : List Iv) :
     · subst he; exact ⟨Or.inr ⟨t, htm, rfl⟩, Or.inl rfl⟩
 
 /-- where an intron of the corrected alignment may come from (the two disjuncts of `site_provenance`) -/
-def Provenance (p : CParams) (known : List Iv) (emap : List (Int × MEvent)) (readIntrons isoIntrons : List Iv)
-    (n : Iv) : Prop :=
+def Provenance (p : CParams) (known : List Iv) (emap : List (Int × MEvent)) (mm : List (Int × Int))
+    (readIntrons isoIntrons : List Iv) (n : Iv) : Prop :=
   (FuzzyOf known p.delta readIntrons n ∧ (p.fl.fuzzy_junctions = false → n ∈ readIntrons)) ∨
-  NamedIsoformIntron emap isoIntrons n
+  NamedIsoformIntron emap mm isoIntrons n
 
 /-- **site_provenance** for the alignment that reaches the BED file: the output of `correct_assigned_read` is the
     read's own exon list, or every block boundary other than the two outer ends is a splice site of an intron with
@@ -372,16 +381,16 @@ theorem corrected_read_site_provenance (p : CParams) (err : Nat → Bool → Int
     (noninformative : Bool) (evs : List MEvent) (isoRegion : Iv) (isoIntrons : List Iv) (exons out : List Iv)
     (h : correctAssignedRead p err known noninformative (some evs) isoRegion isoIntrons exons = .ok out) :
     out = exons ∨ ∃ reg : Iv, ∀ e ∈ out,
-      (e.1 = reg.1 ∨ ∃ n, Provenance p known (buildEventMap p.fl.microintron_retention evs)
+      (e.1 = reg.1 ∨ ∃ n, Provenance p known (buildEventMap evs) (buildMicroMap p.fl.microintron_retention evs)
           (junctionsFromBlocks exons) isoIntrons n ∧ e.1 = n.2 + 1) ∧
-      (e.2 = reg.2 ∨ ∃ n, Provenance p known (buildEventMap p.fl.microintron_retention evs)
+      (e.2 = reg.2 ∨ ∃ n, Provenance p known (buildEventMap evs) (buildMicroMap p.fl.microintron_retention evs)
           (junctionsFromBlocks exons) isoIntrons n ∧ e.2 = n.1 - 1) := by
   rcases correct_assigned_read_cases p err known noninformative (some evs) isoRegion isoIntrons exons out h with
     h1 | ⟨f, l, evs2, reg, ni, _, _, he, hp, ho, _⟩
   · exact Or.inl h1
   · cases he
     refine Or.inr ⟨reg, ?_⟩
-    have hprov := site_provenance p err known _ _ _ isoRegion isoIntrons reg ni hp
+    have hprov := site_provenance p err known _ _ _ _ isoRegion isoIntrons reg ni hp
     subst ho
     intro e he
     obtain ⟨h1, h2⟩ := output_sites_from_introns reg ni e he
@@ -481,7 +490,7 @@ theorem corrected_bed_valid (chrom name strand : String) (chromLen : Int) (p : C
     rcases correct_assigned_read_cases p err known noninformative events isoRegion isoIntrons exons out h with
       h1 | ⟨f, l, evs, reg, ni, hf, hl, _, hp, ho, _⟩
     · subst h1; exact ⟨hne, hsd, hw, hfirst, hlast⟩
-    · obtain ⟨hs, he⟩ := ends_preserved_unless_terminal p err known _ _ _ isoRegion isoIntrons reg ni hp
+    · obtain ⟨hs, he⟩ := ends_preserved_unless_terminal p err known _ _ _ _ isoRegion isoIntrons reg ni hp
       obtain ⟨f', l', h1, h2, h3, h4⟩ := build_exons_ends reg ni
       have hb := SD_bounds hsd hw hf hl
       have hf1 := hfirst f hf
@@ -518,34 +527,30 @@ example : buildExons (10, 99) [(21, 30), (46, 59)] = [(10, 20), (31, 45), (60, 9
     (`read_region[1] ≥ read_region[0]`, which is how `correct_misalignments` keys well-formed events), the loop
     index strictly increases and the run never exhausts the model's fuel, for every flag setting and input -/
 theorem process_events_terminates (p : CParams) (err : Nat → Bool → Int × Int) (known : List Iv)
-    (emap : List (Int × MEvent)) (readRegion : Iv) (readIntrons : List Iv) (isoRegion : Iv) (isoIntrons : List Iv)
+    (emap : List (Int × MEvent)) (mm : List (Int × Int)) (readRegion : Iv) (readIntrons : List Iv) (isoRegion : Iv)
+    (isoIntrons : List Iv)
     (hprog : ∀ k e, 0 ≤ k → emap.lookup k = some e → k ≤ e.read.2) :
-    processEvents p err known emap readRegion readIntrons isoRegion isoIntrons ≠ .error .fuel := by
+    processEvents p err known emap mm readRegion readIntrons isoRegion isoIntrons ≠ .error .fuel := by
   unfold processEvents
-  exact eventLoop_no_fuel_error p emap readRegion readIntrons _ isoRegion isoIntrons hprog _ 0 readRegion []
+  exact eventLoop_no_fuel_error p emap mm readRegion readIntrons _ isoRegion isoIntrons hprog _ 0 readRegion []
     (by omega) (by simp [eventFuel]; omega)
 
 /-- the hypothesis of `process_events_terminates` holds for the map built from events whose read regions are
     sentinels or non-empty index ranges -/
-theorem built_map_progress (micro : Bool) (n : Nat) (evs : List MEvent) (hw : WellFormedRegions n evs) :
-    ∀ k e, 0 ≤ k → (buildEventMap micro evs).lookup k = some e → k ≤ e.read.2 := by
+theorem built_map_progress (n : Nat) (evs : List MEvent) (hw : WellFormedRegions n evs) :
+    ∀ k e, 0 ≤ k → (buildEventMap evs).lookup k = some e → k ≤ e.read.2 := by
   intro k e hk hl
-  obtain ⟨h1, h2, h3⟩ := buildEventMap_mem (lookup_mem hl)
-  simp only at h1 h2 h3
-  rcases h3 with ⟨ha, _, _, hkey⟩ | ⟨ha, hkey⟩
-  · rcases hw e h1 with h | h | h
-    · exact absurd h h2
-    · omega
-    · omega
-  · rcases hw e h1 with h | h | h
-    · exact absurd h h2
-    · exact absurd h.1 ha
-    · omega
+  obtain ⟨h1, h2, ha, hkey⟩ := buildEventMap_mem (lookup_mem hl)
+  simp only at h1 h2 ha hkey
+  rcases hw e h1 with h | h | h
+  · exact absurd h h2
+  · exact absurd h.1 ha
+  · omega
 
 /-- a malformed event (region ending before its key) makes the loop spin forever: the real code does not terminate,
     the model reports `fuel` (replayed against the real code under a watchdog by the correspondence) -/
 theorem nontermination_witness :
-    processEvents ⟨allOff, 0⟩ (fun _ _ => (0, 0)) [] [(0, ⟨MatchEventSubtype.intron_retention, (0, 0), (0, -1)⟩)]
+    processEvents ⟨allOff, 0⟩ (fun _ _ => (0, 0)) [] [(0, ⟨MatchEventSubtype.intron_retention, (0, 0), (0, -1)⟩)] []
       (1, 100) [(11, 20)] (1, 100) [(11, 20)] = .error .fuel := by decide
 
 
@@ -558,24 +563,24 @@ theorem default_ont_flags : correction_presets.lookup "default_ont" = some ⟨tr
 
 -- fuzzy correction moves both sites of read intron (21,30) onto the annotated intron (20,31) (within delta = 2) when
 -- the alignment shows an indel between the candidate sites, and keeps the read's sites when it does not
-example : processEvents ⟨⟨true, false, true, false, true, true⟩, 2⟩ (fun _ _ => (1, 0)) [(20, 31)] [] (10, 99)
+example : processEvents ⟨⟨true, false, true, false, true, true⟩, 2⟩ (fun _ _ => (1, 0)) [(20, 31)] [] [] (10, 99)
     [(21, 30)] (5, 120) [(20, 31)] = .ok ((10, 99), [(20, 31)]) := by decide +kernel
-example : processEvents ⟨⟨true, false, true, false, true, true⟩, 2⟩ (fun _ _ => (0, 1)) [(20, 31)] [] (10, 99)
+example : processEvents ⟨⟨true, false, true, false, true, true⟩, 2⟩ (fun _ _ => (0, 1)) [(20, 31)] [] [] (10, 99)
     [(21, 30)] (5, 120) [(20, 31)] = .ok ((10, 99), [(21, 30)]) := by decide +kernel
 
 -- a fake terminal exon on the left (event on read intron 0, flag on): the region starts after that intron and the
 -- intron is dropped; with the flag off (`conservative_ont`) the same event changes nothing
 example : processEvents ⟨⟨true, false, true, false, true, true⟩, 6⟩ (fun _ _ => (0, 0)) []
-    [(0, ⟨MatchEventSubtype.fake_terminal_exon_left, (1073741823, 1073741823), (0, 0)⟩)] (10, 99)
+    [(0, ⟨MatchEventSubtype.fake_terminal_exon_left, (1073741823, 1073741823), (0, 0)⟩)] [] (10, 99)
     [(13, 40), (61, 70)] (41, 120) [(61, 70)] = .ok ((41, 99), [(61, 70)]) := by decide +kernel
 example : processEvents ⟨⟨true, false, true, false, false, false⟩, 6⟩ (fun _ _ => (0, 0)) []
-    [(0, ⟨MatchEventSubtype.fake_terminal_exon_left, (1073741823, 1073741823), (0, 0)⟩)] (10, 99)
+    [(0, ⟨MatchEventSubtype.fake_terminal_exon_left, (1073741823, 1073741823), (0, 0)⟩)] [] (10, 99)
     [(13, 40), (61, 70)] (41, 120) [(61, 70)] = .ok ((10, 99), [(13, 40), (61, 70)]) := by decide +kernel
 
 -- a skipped micro-exon (exon_misalignment, flag `skipped_exons`): read intron (21,80) is replaced by the two
 -- isoform introns it spans
 example : processEvents ⟨⟨false, false, true, false, false, false⟩, 6⟩ (fun _ _ => (0, 0)) []
-    [(0, ⟨MatchEventSubtype.exon_misalignment, (0, 1), (0, 0)⟩)] (1, 200)
+    [(0, ⟨MatchEventSubtype.exon_misalignment, (0, 1), (0, 0)⟩)] [] (1, 200)
     [(21, 80)] (1, 200) [(21, 40), (51, 80)] = .ok ((1, 200), [(21, 40), (51, 80)]) := by decide +kernel
 
 /-- `process_events` itself has no gate on where a terminal event points: a `fake_terminal_exon_left` event on read
